@@ -445,6 +445,138 @@ async fn reconnect(ctx: &mut Ctx, ty: &str, others: usize, observed: bool, case:
     }
 }
 
+/// Real transport, multi-thread runtime: peers join a bound PUSH/DEALER socket while the
+/// application keeps sending (registration runs on the accept task, in parallel with the
+/// sender). Once things are quiet every connected peer has its turn in the rotation.
+async fn rig_join_while_sending(ty: &str, trials: usize, seed: u64) -> Result<(u64, u64), (String, String)> {
+    use crate::rig::{self, Raw, ReadEnd, WAIT};
+    use std::sync::atomic::{AtomicBool, AtomicU64, Ordering};
+    use std::sync::{Arc, Mutex};
+    use std::time::Duration;
+    let inc = |e: String| ("inconclusive".to_string(), e);
+    let mut r = Rng::keyed(seed, &[10, 0x416]);
+    let mut sock = Sock::new(ty, None);
+    let ep = sock.bind(&rig::bind_endpoint("tcp4")).await.map_err(inc)?;
+    let peer_ty = peer_type_for(ty).to_string();
+    // what each peer received: sequence numbers
+    let got: Arc<Mutex<Vec<Vec<u32>>>> = Arc::new(Mutex::new(Vec::new()));
+    let stop = Arc::new(AtomicBool::new(false));
+    let handshakes = Arc::new(AtomicU64::new(0));
+    let spawn_peer = |k: usize| {
+        let (ep, peer_ty, got, stop, handshakes) = (ep.clone(), peer_ty.clone(), got.clone(), stop.clone(), handshakes.clone());
+        got.lock().unwrap().push(Vec::new());
+        tokio::spawn(async move {
+            let mut raw = match Raw::connect(&ep).await {
+                Ok(r) => r,
+                Err(_) => return,
+            };
+            if raw.handshake(&peer_ty, None).await.is_err() {
+                return;
+            }
+            handshakes.fetch_add(1, Ordering::SeqCst);
+            while !stop.load(Ordering::SeqCst) {
+                match raw.read_msg(Duration::from_millis(100)).await {
+                    Ok(m) => {
+                        if let Ok(t) = rc::parse_tag(&m, 0) {
+                            got.lock().unwrap()[k].push(t.seq);
+                        }
+                    }
+                    Err(ReadEnd::Timeout) => {}
+                    Err(_) => return,
+                }
+            }
+        })
+    };
+    let mut tasks = Vec::new();
+    let mut seq = 0u32;
+    let mut npeers = 0usize;
+    for _ in 0..2 {
+        tasks.push(spawn_peer(npeers));
+        npeers += 1;
+    }
+    tokio::time::sleep(Duration::from_millis(60)).await;
+    let mut joined_while_sending = 0u64;
+    for _ in 0..trials {
+        let before = handshakes.load(Ordering::SeqCst);
+        tasks.push(spawn_peer(npeers));
+        npeers += 1;
+        // keep sending while the new peer connects and is registered
+        let mut extra = r.range(3, 30);
+        let t0 = std::time::Instant::now();
+        loop {
+            match tokio::time::timeout(WAIT, sock.send(&rc::tagged(0, seq, &[r.below(64)]))).await {
+                Ok(Ok(())) => seq += 1,
+                Ok(Err(e)) => return Err((format!("C10/rig/send-failed/{ty}"), format!("send with {npeers} connected peers failed: {}", e.text))),
+                Err(_) => return Err(inc("send timed out".into())),
+            }
+            if handshakes.load(Ordering::SeqCst) > before {
+                if extra == 0 {
+                    break;
+                }
+                extra -= 1;
+            }
+            if t0.elapsed() > WAIT {
+                return Err(inc("joining peer never completed its handshake".into()));
+            }
+            if seq % 16 == 0 {
+                tokio::task::yield_now().await;
+            }
+        }
+        joined_while_sending += 1;
+        if npeers >= 14 {
+            break;
+        }
+    }
+    // quiet: registrations done; then one window in which everybody must get a turn
+    tokio::time::sleep(Duration::from_millis(80)).await;
+    let w0 = seq;
+    let window = 3 * npeers as u32;
+    for _ in 0..window {
+        match tokio::time::timeout(WAIT, sock.send(&rc::tagged(0, seq, &[8]))).await {
+            Ok(Ok(())) => seq += 1,
+            Ok(Err(e)) => return Err((format!("C10/rig/send-failed/{ty}"), e.text)),
+            Err(_) => return Err(inc("send timed out".into())),
+        }
+    }
+    // wait until everything sent has been read by somebody
+    let deadline = std::time::Instant::now() + WAIT;
+    loop {
+        let total: usize = got.lock().unwrap().iter().map(|v| v.len()).sum();
+        if total as u32 >= seq || std::time::Instant::now() > deadline {
+            break;
+        }
+        tokio::time::sleep(Duration::from_millis(10)).await;
+    }
+    stop.store(true, Ordering::SeqCst);
+    let g = got.lock().unwrap().clone();
+    let total: usize = g.iter().map(|v| v.len()).sum();
+    let connected = handshakes.load(Ordering::SeqCst) as usize;
+    let unserved: Vec<usize> = g.iter().enumerate().filter(|(_, v)| !v.iter().any(|s| *s >= w0)).map(|(k, _)| k).collect();
+    for t in tasks {
+        let _ = tokio::time::timeout(Duration::from_millis(500), t).await;
+    }
+    let _ = tokio::time::timeout(WAIT, sock.close()).await;
+    if connected != npeers {
+        return Err(inc(format!("{connected} of {npeers} peers completed their handshake")));
+    }
+    if (total as u32) < seq {
+        if !rig::canary_ok().await {
+            return Err(inc("not everything was read and the canary was slow".into()));
+        }
+        return Err((format!("C10/rig/message-lost/{ty}"), format!("{seq} sends returned Ok, the {npeers} peers read {total} messages")));
+    }
+    if !unserved.is_empty() {
+        return Err((
+            format!("C10/rig/connected-peer-never-in-rotation/{ty}"),
+            format!(
+                "{npeers} peers connected (most of them while the application was sending); in a final window of {window} sends on the stable set, peers {unserved:?} received nothing (per-peer totals: {:?})",
+                g.iter().map(|v| v.len()).collect::<Vec<_>>()
+            ),
+        ));
+    }
+    Ok((joined_while_sending, window as u64))
+}
+
 impl Prop for C10 {
     fn id(&self) -> &'static str {
         "C10"
@@ -452,6 +584,11 @@ impl Prop for C10 {
 
     fn cases(&self, tier: Tier, seed: u64) -> Vec<Value> {
         let mut v = Vec::new();
+        for ty in ["PUSH", "DEALER"] {
+            for k in 0..tier.pick(10u64, 100) {
+                v.push(json!({"kind": "rig_join", "ty": ty, "trials": 12, "seed": mix(seed ^ 0x416 ^ k)}));
+            }
+        }
         for ty in ["PUSH", "DEALER", "REQ"] {
             for others in 0..=3usize {
                 for observed in [false, true] {
@@ -474,6 +611,21 @@ impl Prop for C10 {
     }
 
     fn run(&self, case: &Value, ctx: &mut Ctx) {
+        if s(case, "kind") == "rig_join" {
+            ctx.eval(hash_str(&case.to_string()), true);
+            ctx.sample("rig_join", || case.clone());
+            let ty = s(case, "ty").to_string();
+            let (res, _) = crate::rig::run(4, rig_join_while_sending(&ty, u(case, "trials") as usize, u(case, "seed")));
+            match res {
+                Ok((joined, window)) => {
+                    ctx.add("rig_peers_joined_while_the_application_was_sending", joined);
+                    ctx.add("rig_rotation_window_sends", window);
+                }
+                Err((sig, msg)) if sig == "inconclusive" => ctx.inconclusive(format!("C10 rig: {msg}")),
+                Err((sig, msg)) => ctx.violation_with(&sig, msg, case.clone()),
+            }
+            return;
+        }
         if s(case, "kind") == "reconnect" {
             ctx.eval(hash_str(&case.to_string()), true);
             ctx.sample("reconnect", || case.clone());
@@ -491,6 +643,7 @@ impl Prop for C10 {
     fn floors(&self, _tier: Tier) -> Vec<(&'static str, u64)> {
         vec![
             ("successful_sends", 5000),
+            ("rig_peers_joined_while_the_application_was_sending", 100),
             ("rotation_windows_n_ge_3", 1000),
             ("sends_pending_under_backpressure", 200),
             ("sends_pending_with_partial_write", 50),
